@@ -643,6 +643,11 @@ func (x *client) errnoIdentity() {
 				}
 				tgt := stripConv(c.Common().Args[1])
 				key := "errors.Is target in " + fnName(f) + ": " + Term(tgt)
+				if typeStr(tgt.Type()) == "syscall.Errno" {
+					// an errno value, constant or taken from a list of errnos
+					r.OK(key, c.Pos(), "errno value")
+					continue
+				}
 				switch v := tgt.(type) {
 				case *ssa.Const:
 					r.Check(typeStr(v.Type()) == "syscall.Errno", key, c.Pos(), "errno constant", "errors.Is compares with a constant that is not a syscall.Errno")
@@ -1508,6 +1513,37 @@ func propC18(r *Run, w *World) {
 				case *ssa.MakeSlice:
 					k, isK = constInt(v.Len)
 					lenT = Term(v.Len)
+					// the size is a parameter of an unexported constructor: every caller's argument
+					if par, isPar := v.Len.(*ssa.Parameter); isPar && !isK && cs.Caller.Object() != nil && !cs.Caller.Object().Exported() {
+						idx := -1
+						for pi, pp := range cs.Caller.Params {
+							if pp == par {
+								idx = pi
+							}
+						}
+						sites := w.CallSites(cs.Caller)
+						all := idx >= 0 && len(sites) > 0
+						min := int64(-1)
+						for _, s2 := range sites {
+							c2, isC2 := s2.Instr.(ssa.CallInstruction)
+							if !isC2 || s2.Kind != "static" || idx >= len(c2.Common().Args) {
+								all = false
+								break
+							}
+							kk, okk := constInt(c2.Common().Args[idx])
+							if !okk {
+								all = false
+								break
+							}
+							if min < 0 || kk < min {
+								min = kk
+							}
+						}
+						if all {
+							k, isK = min, true
+							lenT = fmt.Sprint(min)
+						}
+					}
 				case *ssa.Slice:
 					if al, isAl := v.X.(*ssa.Alloc); isAl && v.Low == nil {
 						if arr, isArr := al.Type().(*types.Pointer).Elem().Underlying().(*types.Array); isArr {
